@@ -16,6 +16,7 @@ package system2x
 
 import (
 	"encoding/csv"
+	"encoding/hex"
 	"encoding/json"
 	"fmt"
 	"hash/fnv"
@@ -24,6 +25,7 @@ import (
 	"os"
 	"path/filepath"
 	"reflect"
+	"regexp"
 	"runtime"
 	"sort"
 	"strconv"
@@ -68,6 +70,7 @@ type Step struct {
 type Doc struct {
 	C [][2]json.RawMessage `json:"c"` // the global commit table: [content, parents] per id
 	H []Step               `json:"h"`
+	B []string             `json:"b"` // every branch with an upstream configured (what --all iterates over)
 }
 
 type mergeX struct {
@@ -219,6 +222,7 @@ type sideObs struct {
 	Heads   map[string]int    `json:"heads"`
 	Present []int             `json:"present"`
 	Logs    map[string]int    `json:"logs"`
+	RawLogs map[string]int    `json:"-"` // as counted, before optional entries are added
 	Commits map[int]commitObs `json:"commits"`
 }
 
@@ -227,13 +231,22 @@ type world struct {
 	idOf  map[string]int // commit sum -> global id
 }
 
+func (w *world) sumOf(id int) string {
+	for s, i := range w.idOf {
+		if i == id {
+			return s
+		}
+	}
+	return ""
+}
+
 func (w *world) project(r *cli.Repo) (*sideObs, error) {
 	db, rs, closeFn, err := r.Open()
 	if err != nil {
 		return nil, err
 	}
 	defer closeFn()
-	o := &sideObs{Heads: map[string]int{}, Present: []int{}, Logs: map[string]int{}, Commits: map[int]commitObs{}}
+	o := &sideObs{Heads: map[string]int{}, Present: []int{}, Logs: map[string]int{}, RawLogs: map[string]int{}, Commits: map[int]commitObs{}}
 	keys, err := objects.GetAllCommitKeys(db)
 	if err != nil {
 		return nil, err
@@ -288,6 +301,7 @@ func (w *world) project(r *cli.Repo) (*sideObs, error) {
 			lr.Close()
 		}
 		o.Logs[name] = n
+		o.RawLogs[name] = n
 	}
 	return o, nil
 }
@@ -476,6 +490,34 @@ func conflictFile(dir string, nk, s int) (conf []int, rest []int, why string, fo
 	return conf, rest, why, true
 }
 
+// mergeFile reads (and removes) the MERGE_<sums>.csv that `--no-commit` writes.
+func mergeFile(dir string, nk, s int) (content []int, why string, found bool) {
+	names, _ := filepath.Glob(filepath.Join(dir, "MERGE_*.csv"))
+	if len(names) == 0 {
+		return nil, "no MERGE_*.csv written", false
+	}
+	defer func() {
+		for _, n := range names {
+			os.Remove(n)
+		}
+	}()
+	f, err := os.Open(names[0])
+	if err != nil {
+		return nil, err.Error(), true
+	}
+	defer f.Close()
+	rd := csv.NewReader(f)
+	rd.FieldsPerRecord = -1
+	rows, err := rd.ReadAll()
+	if err != nil || len(rows) == 0 {
+		return nil, fmt.Sprintf("unparsable: %v", err), true
+	}
+	content, why = recognise(rows, nk, s)
+	return content, why, true
+}
+
+var commitLine = regexp.MustCompile(`(?m)^commit ([0-9a-f]{32})$`)
+
 func intsEq(a, b []int) bool {
 	if len(a) != len(b) {
 		return false
@@ -597,10 +639,16 @@ func Replay(i int, raw []byte) child.Result {
 	for _, st := range doc.H {
 		if len(st.Op) == 5 {
 			switch str(st.Op[0]) {
-			case "commit", "push", "pull", "merge", "create", "delete":
+			case "commit", "push", "pull", "merge", "create", "delete", "reset":
 				branches[str(st.Op[2])] = true
+			case "copy", "move":
+				branches[str(st.Op[2])] = true
+				branches[str(st.Op[3])] = true
 			}
 		}
+	}
+	for _, b := range doc.B {
+		branches[b] = true
 	}
 	yaml := fmt.Sprintf("remote:\n  origin:\n    url: %s\n    fetch:\n    - refs/heads/*:refs/remotes/origin/*\nbranch:\n", front.URL)
 	bl := []string{}
@@ -681,6 +729,8 @@ func Replay(i int, raw []byte) child.Result {
 				a = append(a, "--ff-only")
 			case "nogui":
 				a = append(a, "--no-gui")
+			case "nocommit":
+				a = append(a, "--no-commit")
 			}
 			json.Unmarshal(st.X, &mx)
 			harnessErr = e.serve(func() { run(e.L, a...) })
@@ -694,12 +744,57 @@ func Replay(i int, raw []byte) child.Result {
 				a = append(a, "--no-ff")
 			case "nogui":
 				a = append(a, "--no-gui")
+			case "nocommit":
+				a = append(a, "--no-commit")
+			case "csv":
+				// the table of the merge commit is given as a file (the model: "ours")
+				if st.Obs.NC < 1 || st.Obs.NC >= len(table) {
+					return child.Inconclusive(fmt.Errorf("step %d: no commit for --commit-csv", n))
+				}
+				f, err := e.csvFile(e.L, table[st.Obs.NC].Content)
+				if err != nil {
+					return child.Inconclusive(err)
+				}
+				a = append(a, "--commit-csv", f)
 			}
 			run(e.L, a...)
 		case "create":
 			run(repo, "branch", "create", b, str(st.Op[3]))
 		case "delete":
 			run(repo, "branch", "delete", b)
+		case "reset":
+			var c int
+			json.Unmarshal(st.X, &c)
+			sum := w.sumOf(c)
+			if sum == "" {
+				return child.Inconclusive(fmt.Errorf("step %d: reset to commit %d, which was never seen", n, c))
+			}
+			run(e.L, "reset", b, hex.EncodeToString([]byte(sum)))
+		case "copy":
+			run(repo, "branch", "create", b, "--copy", str(st.Op[3]))
+		case "move":
+			run(repo, "branch", "create", b, "--move", str(st.Op[3]))
+		case "pushall":
+			a := []string{"push", "--all"}
+			if str(st.Op[3]) == "force" {
+				a = append(a, "--force")
+			}
+			harnessErr = e.serve(func() { run(e.L, a...) })
+		case "pullall":
+			var fm [2]string
+			json.Unmarshal(st.Op[3], &fm)
+			a := []string{"pull", "--all", "-n", "1"}
+			if fm[0] == "force" {
+				a = append(a, "--force")
+			}
+			if fm[1] == "ffonly" {
+				a = append(a, "--ff-only")
+			}
+			harnessErr = e.serve(func() { run(e.L, a...) })
+		case "log":
+			run(repo, "log", strings.TrimPrefix(b, "heads/"), "--no-pager")
+		case "reflog":
+			run(repo, "reflog", b, "--no-pager")
 		case "prune":
 			run(e.L, "prune")
 		case "export":
@@ -727,7 +822,7 @@ func Replay(i int, raw []byte) child.Result {
 		// ---- exit status and reported rejections
 		// (the statement asks that a rejected update be reported; which exit status a fetch or
 		// push with a reported rejection has is not demanded)
-		statusFree := (name == "fetch" || name == "push") && len(st.Rej) > 0
+		statusFree := (name == "fetch" || name == "push" || name == "pushall") && len(st.Rej) > 0
 		if (runErr == nil) != st.Ok && !statusFree {
 			if realMerge && runErr != nil {
 				// the model's base merges cleanly; another admissible base conflicts, and the
@@ -780,6 +875,52 @@ func Replay(i int, raw []byte) child.Result {
 			}
 			if !match {
 				return fail("conflict-file")
+			}
+		}
+		// ---- --no-commit: the merge result file against the oracle (any admissible base)
+		if kind == "nocommit-clean" {
+			content, why, found := mergeFile(work, w.nk, w.s)
+			ctx["file_content"], ctx["file_problem"], ctx["admissible"] = content, why, alts
+			if !found {
+				return fail("merge-file-missing")
+			}
+			match := false
+			for _, a := range alts {
+				if content != nil && len(a.Conf) == 0 && intsEq(a.Content, content) {
+					match = true
+				}
+			}
+			if !match {
+				return fail("merge-file")
+			}
+		}
+		// ---- log: the first-parent chain from the head, every listed commit a parent of the one before
+		if name == "log" && runErr == nil {
+			var head int
+			json.Unmarshal(st.X, &head)
+			chain := []int{}
+			for _, m := range commitLine.FindAllStringSubmatch(out, -1) {
+				raw, _ := hex.DecodeString(m[1])
+				chain = append(chain, w.idOf[string(raw)])
+			}
+			ctx["chain"], ctx["head"] = chain, head
+			good := len(chain) > 0 && chain[0] == head && !strings.Contains(out, "<missing")
+			for i := 0; good && i < len(chain); i++ {
+				c := chain[i]
+				if c < 1 || c >= len(table) {
+					good = false
+				} else if i+1 < len(chain) {
+					isParent := false
+					for _, p := range table[c].Parents {
+						isParent = isParent || p == chain[i+1]
+					}
+					good = isParent
+				} else {
+					good = len(table[c].Parents) == 0
+				}
+			}
+			if !good {
+				return fail("chain")
 			}
 		}
 		// ---- the state of both repositories
@@ -887,6 +1028,27 @@ func Replay(i int, raw []byte) child.Result {
 				return fail(sd.tag + ".logs")
 			}
 		}
+		// ---- reflog: one line per entry of the log the store holds, newest first (the newest entry's new
+		// value is the value of the ref)
+		if name == "reflog" && runErr == nil {
+			so := obsL
+			if side == "R" {
+				so = obsR
+			}
+			lines := []string{}
+			for _, l := range strings.Split(strings.TrimSpace(out), "\n") {
+				if strings.TrimSpace(l) != "" {
+					lines = append(lines, l)
+				}
+			}
+			var want int
+			json.Unmarshal(st.X, &want)
+			headSum := hex.EncodeToString([]byte(w.sumOf(so.Heads[b])))
+			ctx["reflog_lines"], ctx["entries_in_store"], ctx["entries_expected"] = len(lines), so.RawLogs[b], want
+			if len(lines) != so.RawLogs[b] || len(lines) == 0 || len(headSum) < 7 || !strings.HasPrefix(lines[0], headSum[:7]+" ") {
+				return fail("lines")
+			}
+		}
 		// ---- convergence: a branch pushed and not moved since exports the same rows on both sides
 		for _, sb := range st.Obs.SY {
 			lr, lout, lerr := exportRows(e.L, "heads/"+sb)
@@ -900,7 +1062,9 @@ func Replay(i int, raw []byte) child.Result {
 	// class: the scale and the notable outcomes the behaviour went through
 	notable := []string{}
 	for _, k := range []string{"merge/real", "pull/real", "merge/nogui-conflict", "pull/nogui-conflict", "merge/merge-commit", "push/rejected", "push/forced",
-		"fetch/rejected", "pull/fetch-rejected", "prune/removed"} {
+		"fetch/rejected", "pull/fetch-rejected", "prune/removed",
+		"reset/moved", "copy/done", "move/done", "pushall/ok", "pushall/rejected", "pushall/stops", "pullall/ok", "pullall/stops",
+		"merge/nocommit-clean", "pull/nocommit-clean", "merge/csv-commit"} {
 		if labels[k] {
 			notable = append(notable, k)
 		}
